@@ -507,7 +507,12 @@ func ParseContractFile(path, pkgPath string) (*PkgContracts, error) {
 
 func anchoredClause(kind, rest string, mk func(kind, rest string) (*Clause, error)) (*Clause, error) {
 	if kind == "ghost" {
-		// ghost v = expr
+		// ghost v = expr   |   ghost(C15) v = expr
+		props := ""
+		if m := reClauseProps.FindStringSubmatch(rest); m != nil {
+			props = m[1]
+			rest = rest[len(m[0]):]
+		}
 		eq := strings.Index(rest, "=")
 		if eq < 0 {
 			return nil, fmt.Errorf("ghost assignment needs '=': %s", rest)
@@ -517,6 +522,9 @@ func anchoredClause(kind, rest string, mk func(kind, rest string) (*Clause, erro
 			return nil, err
 		}
 		c.GhostVar = strings.TrimSpace(rest[:eq])
+		if props != "" {
+			c.Props = props
+		}
 		return c, nil
 	}
 	return mk(kind, rest)
